@@ -273,6 +273,10 @@ class SymReal:
 
     __hash__ = None
 
+    def __bool__(s):
+        # Python truthiness of a number: x != 0 (e.g. `table.get(phase) or default`)
+        return bool(SymBool(s.t != 0))
+
     def __float__(s):
         raise TypeError("symbolic value would be concretised (float())")
 
